@@ -8,7 +8,8 @@ Model of who is offered / served which file (C08), on top of the C07 models of t
 (`Model/Shares.lean`) and of query matching (`Model/Query.lean`), the generated transfer state table
 (`Generated/TransferTable.lean`) and the generated constants (`Generated/EntitleConstants.lean`).
 
-Transcribed (after `fixes/C08-excluded-phrase-case.patch`):
+Transcribed (after `fixes/C08-excluded-phrase-case.patch`; with or without
+`fixes/C08-relook-after-state-lock.patch`, whichever the regenerated `relookWhenLocked` says):
 * `SharesManager.is_directory_locked` / `is_item_locked`            shares/manager.py:955-966
 * `SharesManager.query`: excluded phrases, visible / locked split      shares/manager.py:734-769
 * `SharesManager.create_shares_reply`, `create_directory_reply`        shares/manager.py:810-892
@@ -28,9 +29,14 @@ Characters are code points (`Nat`), user names are numbers, a path component is 
 points, a remote path is the string the peer sends. A `SharedDirectory` object carries, besides its
 absolute path, its alias and its share mode (`DirInfo`).
 
+* the transfer's `_state_lock` (`_with_state_lock`, `_cancel_transfer_tasks`, `Transfer.transition`):
+  a state method suspended while it holds the lock, the calls that wait for it  transfer/state.py:17-29, 151-156;
+                                                                      transfer/model.py:222-237
+
 Not modelled: file attributes and sizes, files vanishing from disk between a scan and a request
 (`asyncos.path.exists`), alias collisions (two shared directories with one alias), an empty user
-name, the upload itself (`_initialize_upload`; the correspondence runs with no upload slot).
+name, the upload itself (`_initialize_upload`; the correspondence runs with no upload slot), a
+peer's request for an upload whose state lock is held (`busy`: the generator does not make one).
 -/
 namespace AioslskVerif.Entitle
 open AioslskVerif AioslskVerif.Shares AioslskVerif.Transfer
@@ -189,14 +195,16 @@ deriving DecidableEq, Repr
 /-- One state method called on an upload, on the two fields it can change (state, `abort_reason`),
 by `Generated/TransferTable.lean`: refused (`False`, nothing changes) when the state class does not
 override it, otherwise the effects on `abort_reason` and the transition. -/
+def effReason (r : Option Reason) (effs : List Eff) (a : Option Reason) : Option Reason :=
+  effs.foldl (fun a e => match e with
+    | .setAbortReason => r
+    | .clearAbortReason => none
+    | _ => a) a
+
 def methSR (m : Meth) (r : Option Reason) (sr : St × Option Reason) : (St × Option Reason) × Bool :=
   match Generated.Transfer.implStep .upload sr.1 m with
   | none => (sr, false)
-  | some (t, effs) =>
-    ((t, effs.foldl (fun a e => match e with
-          | .setAbortReason => r
-          | .clearAbortReason => none
-          | _ => a) sr.2), true)
+  | some (t, effs) => ((t, effReason r effs sr.2), true)
 
 def Xfer.sr (x : Xfer) : St × Option Reason := (x.state, x.reason)
 def Xfer.withSR (x : Xfer) (sr : St × Option Reason) : Xfer := { x with state := sr.1, reason := sr.2 }
@@ -269,21 +277,44 @@ def condHolds (blocked notShared : Bool) (reason : Option Reason) : Cond → Boo
 def verdict (blocked notShared : Bool) (reason : Option Reason) : Option Reason :=
   (conditions.find? (fun cr => condHolds blocked notShared reason cr.1)).map (·.2)
 
+/-- what one iteration of the loop of `manage_shares_changed` decides for an upload -/
+inductive Act
+  /-- left alone -/
+  | none
+  /-- `elif abort_reason: upload.abort_reason = abort_reason` (done at once, no state method) -/
+  | assign (r : Reason)
+  /-- `tasks.append(upload.state.abort(reason=…))` / `tasks.append(self._requeue_if_listed(upload))`:
+  a state method, run by the `gather` at the end — it goes through the transfer's state lock -/
+  | call (m : Meth) (r : Option Reason)
+deriving DecidableEq, Repr
+
+/-- The decision, from the (state, `abort_reason`) the upload shows at that instant, its user being
+`blocked` / its file `notShared` right now. -/
+def cycleAct (blocked notShared : Bool) (sr : St × Option Reason) : Act :=
+  if sr.1 ∈ skipStates then .none
+  else
+    let v := verdict blocked notShared sr.2
+    let aborted := decide (sr.1 = .aborted)
+    if aborted != v.isSome then                       -- should_change
+      if aborted then .call .queue Option.none else .call .abort v
+    else
+      match v with
+      | some r => .assign r
+      | Option.none => .none
+
+/-- the decision carried out on an upload nobody else is changing -/
+def applyAct (a : Act) (sr : St × Option Reason) : St × Option Reason :=
+  match a with
+  | .none => sr
+  | .assign r => (sr.1, some r)
+  | .call m r => (methSR m r sr).1
+
 /-- One iteration of the loop of `manage_shares_changed` (with the task it creates run to
 completion) on the (state, `abort_reason`) of an upload whose user is `blocked` / whose file is
 `notShared` right now. (The re-queue goes through `_requeue_if_listed`, which does nothing for an
 upload that was removed meanwhile; no op of this model removes an upload.) -/
 def reconcileSR (blocked notShared : Bool) (sr : St × Option Reason) : St × Option Reason :=
-  if sr.1 ∈ skipStates then sr
-  else
-    let v := verdict blocked notShared sr.2
-    let aborted := decide (sr.1 = .aborted)
-    if aborted != v.isSome then                       -- should_change
-      if aborted then (methSR .queue none sr).1 else (methSR .abort v sr).1
-    else
-      match v with
-      | some r => (sr.1, some r)                      -- `elif abort_reason: upload.abort_reason = …`
-      | none => sr
+  applyAct (cycleAct blocked notShared sr) sr
 
 def reconcileX (blocked notShared : Bool) (x : Xfer) : Xfer := x.withSR (reconcileSR blocked notShared x.sr)
 
@@ -295,6 +326,93 @@ def reconcile1 (c : Cfg) (sh : St Comp) (x : Xfer) : Xfer :=
 
 /-- `manage_shares_changed` -/
 def reconcile (c : Cfg) (sh : St Comp) (xs : List Xfer) : List Xfer := xs.map (reconcile1 c sh)
+
+/-! ## State methods in flight (transfer/state.py:17-29, 151-156; transfer/model.py:222-237)
+
+Every public state method runs under the transfer's `_state_lock` (`_with_state_lock`): it is
+dispatched on the state the transfer has when the lock is obtained. A method can be suspended
+while it holds the lock at two places: in `_cancel_transfer_tasks` / `_stop_transfer` — it waits for
+the tasks it cancelled (an upload task closing its file connection) and has written nothing yet
+but what precedes that statement — and in `Transfer.transition`, after `transfer.state` was replaced,
+while the state listeners are told. Calls made meanwhile wait for the lock in the order in which
+they were made (`asyncio.Lock` is first come first served). -/
+
+/-- a call of a public state method -/
+structure Call where
+  m : Meth
+  /-- the `reason` argument (`abort`) -/
+  r : Option Reason := none
+  /-- one of the calls gathered by `manage_shares_changed`: `_management_job` does not go on before
+  it has run, and the management task does not start another job before this one is over -/
+  job : Bool := false
+deriving DecidableEq, Repr
+
+inductive Phase
+  /-- inside `_cancel_transfer_tasks()`: the state is still the old one -/
+  | cancelling
+  /-- inside `Transfer.transition()`: every effect is written, `transfer.state` is the new state -/
+  | notifying
+deriving DecidableEq, Repr
+
+/-- upload `k`'s state lock is held by `call`, suspended in `phase`; `waiters` wait for the lock -/
+structure Flight where
+  k : Nat
+  call : Call
+  phase : Phase
+  waiters : List Call := []
+deriving DecidableEq, Repr
+
+def flightOf (fs : List Flight) (k : Nat) : Option Flight := fs.find? (fun f => f.k = k)
+def isLocked (fs : List Flight) (k : Nat) : Bool := (flightOf fs k).isSome
+/-- `_management_job` is suspended in the `gather` of `manage_shares_changed` -/
+def jobWaiting (fs : List Flight) : Bool := fs.any (fun f => f.waiters.any (·.job))
+
+def addWaiter (fs : List Flight) (k : Nat) (c : Call) : List Flight :=
+  fs.map (fun f => if f.k = k then { f with waiters := f.waiters ++ [c] } else f)
+
+def runCall (c : Call) (sr : St × Option Reason) : St × Option Reason := (methSR c.m c.r sr).1
+/-- calls run one after the other, each dispatched on the state the one before left -/
+def runCalls (cs : List Call) (sr : St × Option Reason) : St × Option Reason :=
+  cs.foldl (fun sr c => runCall c sr) sr
+/-- … and what each of them returned -/
+def callResults : List Call → St × Option Reason → List (Call × Bool)
+  | [], _ => []
+  | c :: cs, sr => (c, (methSR c.m c.r sr).2) :: callResults cs (runCall c sr)
+
+/-- the effect statements a method has executed when it is suspended in `_cancel_transfer_tasks` -/
+def preCancel (effs : List Eff) : List Eff := effs.takeWhile (fun e => e != Eff.cancelTasks)
+
+/-- the calls that run when the lock holder `f` is released: the rest of its own method when it
+was waiting for the cancelled tasks, then the waiters -/
+def Flight.pendingCalls (f : Flight) : List Call :=
+  (match f.phase with | .cancelling => [f.call] | .notifying => []) ++ f.waiters
+
+/-- One iteration of the loop of `manage_shares_changed` for upload `k`: the decision is taken on what
+the upload shows NOW; a state method goes through the lock — at once when it is free, else it is
+left waiting (the second component) — while `upload.abort_reason = …` is written directly. -/
+def cycleOne (c : Cfg) (sh : St Comp) (fs : List Flight) (k : Nat) (x : Xfer) : Xfer × Option Call :=
+  let a := cycleAct (userBlocked c x) (fileNotShared c sh x) x.sr
+  if isLocked fs k then
+    match a with
+    | .call m r => (x, some { m := m, r := r, job := true })
+    | .assign r => (x.withSR (x.state, some r), none)
+    | .none => (x, none)
+  else (x.withSR (applyAct a x.sr), none)
+
+def reconcileFrom (c : Cfg) (sh : St Comp) (fs : List Flight) (k : Nat) : List Xfer → List Xfer
+  | [] => []
+  | x :: l => (cycleOne c sh fs k x).1 :: reconcileFrom c sh fs (k + 1) l
+
+/-- `manage_shares_changed` with state locks: the uploads afterwards and the lock queues -/
+def reconcileL (c : Cfg) (sh : St Comp) (fs : List Flight) (xs : List Xfer) : List Xfer × List Flight :=
+  (reconcileFrom c sh fs 0 xs,
+   fs.map (fun f =>
+     match xs[f.k]? with
+     | some x =>
+       match (cycleOne c sh fs f.k x).2 with
+       | some call => { f with waiters := f.waiters ++ [call] }
+       | none => f
+     | none => f))
 
 /-! ## The whole thing as a step function -/
 
@@ -310,6 +428,8 @@ structure S where
   289-291). Lists stand for the Python set / dict: the driver is fed canonical (sorted) lists. -/
   seenFriends : List Name := []
   seenBlocked : List (Name × Nat) := []
+  /-- the state locks that are held (at most one entry per upload) -/
+  flights : List Flight := []
 
 inductive Op
   /-- `settings.users.friends` replaced and the change announced (`FriendListChangedEvent`) in one
@@ -354,6 +474,13 @@ inductive Op
   | userAbort (k : Nat)
   /-- `TransferManager.queue(transfer)` -/
   | userQueue (k : Nat)
+  /-- the call `c` made on upload `k` and — when the lock is free and the state accepts it —
+  SUSPENDED while it holds the lock: `ph = cancelling` in `_cancel_transfer_tasks` (only a method that
+  has that statement can be; another one runs to its end), `ph = notifying` in `Transfer.transition` -/
+  | beginCall (k : Nat) (c : Call) (ph : Phase)
+  /-- the suspended holder of upload `k`'s lock goes on (the cancelled task has ended / the listener
+  returned): its method completes, the lock is handed to the waiters one after the other -/
+  | endCall (k : Nat)
 
 inductive Obs
   | none
@@ -366,11 +493,64 @@ inductive Obs
   | noSuchUpload
   /-- the op is outside the modelled domain (two settings entries for one path) -/
   | outside
+  /-- the call waits for the upload's state lock -/
+  | waiting
+  /-- the call holds the lock and is suspended -/
+  | suspended
+  /-- `_management_job` is still inside `manage_shares_changed` (no other job starts); a peer's
+  request names an upload whose lock is held (not modelled, the request is not delivered) -/
+  | busy
+  /-- the lock holder finished; what it and the waiting calls of the user / the task returned -/
+  | ended (rs : List Bool)
+  | notInFlight
 
 def modifyAt (xs : List Xfer) (k : Nat) (f : Xfer → Xfer × Bool) : List Xfer × Obs :=
   match xs[k]? with
   | none => (xs, .noSuchUpload)
   | some x => (xs.set k (f x).1, .changed (f x).2)
+
+/-- a state method called on upload `k`: run at once when the lock is free (`modifyAt`), else it waits -/
+def callOn (xs : List Xfer) (fs : List Flight) (k : Nat) (c : Call) : (List Xfer × List Flight) × Obs :=
+  if isLocked fs k then ((xs, addWaiter fs k c), .waiting)
+  else (((modifyAt xs k (applyMeth c.m c.r)).1, fs), (modifyAt xs k (applyMeth c.m c.r)).2)
+
+def beginOn (xs : List Xfer) (fs : List Flight) (k : Nat) (c : Call) (ph : Phase) :
+    (List Xfer × List Flight) × Obs :=
+  if isLocked fs k then callOn xs fs k c
+  else
+    match xs[k]? with
+    | none => ((xs, fs), .noSuchUpload)
+    | some x =>
+      match Generated.Transfer.implStep .upload x.state c.m with
+      | none => ((xs, fs), .changed false)
+      | some (_, effs) =>
+        match ph with
+        | .cancelling =>
+          if effs.contains Eff.cancelTasks then
+            ((xs.set k (x.withSR (x.state, effReason c.r (preCancel effs) x.reason)),
+              fs ++ [{ k := k, call := c, phase := .cancelling }]), .suspended)
+          else ((xs.set k (applyMeth c.m c.r x).1, fs), .changed true)
+        | .notifying =>
+          ((xs.set k (applyMeth c.m c.r x).1, fs ++ [{ k := k, call := c, phase := .notifying }]), .suspended)
+
+def endOn (xs : List Xfer) (fs : List Flight) (k : Nat) : (List Xfer × List Flight) × Obs :=
+  match flightOf fs k, xs[k]? with
+  | some f, some x =>
+    ((xs.set k (x.withSR (runCalls f.pendingCalls x.sr)), fs.filter (fun g => g.k ≠ k)),
+      .ended ((match f.phase with | .cancelling => [] | .notifying => [true]) ++
+        ((callResults f.pendingCalls x.sr).filter (fun cr => !cr.1.job)).map (·.2)))
+  | _, _ => ((xs, fs), .notInFlight)
+
+/-- does the request of `u` for `path` name an existing upload whose state lock is held? -/
+def namesLocked (xs : List Xfer) (fs : List Flight) (u : Name) (path : List Ch) : Bool :=
+  match xs.findIdx? (sameKey u path) with
+  | some k => isLocked fs k
+  | none => false
+
+/-- a peer's request that names an upload whose state lock is held is not delivered (`busy`) -/
+def guarded (xs : List Xfer) (fs : List Flight) (u : Name) (path : List Ch) (r : List Xfer × Option FailR) :
+    List Xfer × Obs :=
+  if namesLocked xs fs u path then (xs, .busy) else (r.1, .refusal r.2)
 
 def setDirMode (dirs : List DirInfo) (p : List Comp) (m : Mode) : List DirInfo :=
   dirs.map (fun d => if d.path = p then { d with mode := m } else d)
@@ -439,23 +619,34 @@ def step (s : S) : Op → S × Obs
   | .sharesReq u => (s, .shares (sharesReply s.cfg s.sh u))
   | .dirReq u req => (s, .dir (dirReply s.cfg s.sh u req))
   | .queueReq u path =>
-    let r := onQueue s.cfg s.sh s.xs u path
-    ({ s with xs := r.1 }, .refusal r.2)
+    let r := guarded s.xs s.flights u path (onQueue s.cfg s.sh s.xs u path)
+    ({ s with xs := r.1 }, r.2)
   | .xferReq u path =>
-    let r := onRequest s.cfg s.sh s.xs u path
-    ({ s with xs := r.1 }, .refusal r.2)
+    let r := guarded s.xs s.flights u path (onRequest s.cfg s.sh s.xs u path)
+    ({ s with xs := r.1 }, r.2)
   | .cycle =>
-    if s.sharesChanged then ({ s with xs := reconcile s.cfg s.sh s.xs, sharesChanged := false }, .none)
+    -- the management task runs one job after the other: none starts while one is suspended
+    if jobWaiting s.flights then (s, .busy)
+    else if s.sharesChanged then
+      let r := reconcileL s.cfg s.sh s.flights s.xs
+      -- (after `fixes/C08-relook-after-state-lock.patch`: a held state lock makes the job ask for another cycle)
+      ({ s with xs := r.1, flights := r.2, sharesChanged := relookWhenLocked && !s.flights.isEmpty }, .none)
     else (s, .none)
   | .meth k m =>
-    let r := modifyAt s.xs k (applyMeth m none)
-    ({ s with xs := r.1 }, r.2)
+    let r := callOn s.xs s.flights k { m := m }
+    ({ s with xs := r.1.1, flights := r.1.2 }, r.2)
   | .userAbort k =>
-    let r := modifyAt s.xs k (applyMeth .abort (some .requested))
-    ({ s with xs := r.1 }, r.2)
+    let r := callOn s.xs s.flights k { m := .abort, r := some .requested }
+    ({ s with xs := r.1.1, flights := r.1.2 }, r.2)
   | .userQueue k =>
-    let r := modifyAt s.xs k (applyMeth .queue none)
-    ({ s with xs := r.1 }, r.2)
+    let r := callOn s.xs s.flights k { m := .queue }
+    ({ s with xs := r.1.1, flights := r.1.2 }, r.2)
+  | .beginCall k c ph =>
+    let r := beginOn s.xs s.flights k c ph
+    ({ s with xs := r.1.1, flights := r.1.2 }, r.2)
+  | .endCall k =>
+    let r := endOn s.xs s.flights k
+    ({ s with xs := r.1.1, flights := r.1.2 }, r.2)
 
 def run (s : S) (ops : List Op) : S := ops.foldl (fun s op => (step s op).1) s
 
